@@ -62,9 +62,12 @@ def cases_for(pid, seed):
                     cs.append({'kind': 'h2-layout', 'op': op, 'n': lay, 'a': rb(m), 'b': rb(d)})
         if pid == 'C09':
             cs.append({'kind': 'h2s-many', 'n': 1500})
+        # consecutive calls first and with increasing DST lengths: recycled buffers / cached state are then at their tightest
+        seqs = []
         for op in ops:
-            for (d1, d2) in ((16, 16), (300, 300), (16, 300), (300, 16), (255, 256)):
-                cs.append({'kind': 'h2-sequence', 'op': op, 'a': rb(5), 'b': rb(d1), 'c': rb(d2)})
+            for (d1, d2) in ((1, 2), (15, 16), (16, 16), (32, 33), (49, 50), (255, 256), (16, 300), (300, 33), (300, 300), (300, 16)):
+                seqs.append({'kind': 'h2-sequence', 'op': op, 'a': rb(5), 'b': rb(d1), 'c': rb(d2)})
+        cs = seqs + cs
         return cs + [{'kind': 'h2-panic', 'a': 'aa', 'b': '', 'n': 0}, {'kind': 'h2-panic', 'a': 'aa', 'b': '', 'n': 1}]
     if pid == 'C10':
         return [{'kind': 'history', 'n': seed + s} for s in range(12)] + [{'kind': 'mem'}, {'kind': 'identity-producers'}] + [{'kind': 'hidden-scalar', 'n': m} for m in range(15)] + [{'kind': 'hidden-element', 'n': m} for m in range(11)]
